@@ -178,8 +178,8 @@ GEN_TIES = {
     "xform": {
         "props": {"C04", "C13"},
         "gen": "gen_xform.py", "gen_file": "GscribModel/Gen/XformSrc.lean", "tie": "XformTie", "validate": "harness.tie_xform",
-        "what": "the transform model no longer equals Transform / CoordinateTransformer translated from gscrib/geometry/transform.py "
-                "and gscrib/geometry/transformer.py",
+        "what": "the transform model no longer equals Transform / CoordinateTransformer translated from gscrib/geometry/transform.py, "
+                "gscrib/geometry/transformer.py and the transform context managers of gscrib/gcode_core.py",
     },
     "height": {
         "props": {"C19"},
@@ -190,6 +190,14 @@ GEN_TIES = {
         "props": {"C15"},
         "gen": "gen_sender.py", "gen_file": "GscribModel/Gen/SenderSrc.lean", "tie": "SenderTie", "validate": "harness.tie_sender",
         "what": "the sender model's actions no longer equal the printcore methods translated from gscrib/printrun/printcore.py",
+    },
+    "recv": {
+        "props": {"C15", "C18"},
+        "gen": "gen_recv.py", "gen_file": "GscribModel/Gen/RecvSrc.lean", "tie": "RecvTie", "validate": "harness.tie_recv",
+        "gens": [("gen_sender.py", "GscribModel/Gen/SenderSrc.lean"), ("gen_recv.py", "GscribModel/Gen/RecvSrc.lean")],
+        "ties": ["SenderTie", "RecvTie"],
+        "what": "the reception step no longer equals printcore._readline / Device.has_flow_control / Device.is_connected translated "
+                "from gscrib/printrun/printcore.py and device.py",
     },
     "dwrite": {
         "props": {"C16"},
